@@ -68,8 +68,10 @@ struct Case {
 	// inclusive range
 	uint32_t range(uint32_t lo, uint32_t hi) { return lo + u(hi - lo + 1); }
 	bool flag() { return byte() & 1; }
-	// true with probability ~ num/256
+	// true with probability ~ num/256 (note: exhausted/zero bytes => true)
 	bool chance(unsigned num) { return byte() < num && num; }
+	// same probability, but exhausted/zero bytes => false: use for options whose absence is the plain case
+	bool rare(unsigned num) { return num && byte() >= 256 - (num > 256 ? 256 : num); }
 	template <class T> T pick(std::initializer_list<T> l) {
 		uint32_t i = u((uint32_t)l.size()); return *(l.begin() + i); }
 	// length on a log scale: one byte selects an exponent class, more bytes
